@@ -180,7 +180,7 @@ fn pair_dirty(ctx: &Ctx, p: &PairModel) -> bool {
 
 /// C03: r0*r1/S^2 never decreases while the supply is positive
 fn c03_share_value(ctx: &Ctx, cov: &mut Cover) {
-    for p in &ctx.model.pairs {
+    for p in ctx.model.pairs.iter().filter(|p| p.standard) {
         if !pair_dirty(ctx, p) {
             continue;
         }
@@ -263,7 +263,7 @@ fn c05g_locked_unit(ctx: &Ctx, cov: &mut Cover) {
 
 /// C01: product non-decreasing, paid-out reserve positive, payout <= y*a/(x+a)
 fn c01_swaps(ctx: &Ctx, cov: &mut Cover) {
-    for p in &ctx.model.pairs {
+    for p in ctx.model.pairs.iter().filter(|p| p.standard) {
         let swaps = ok_dispatches(ctx.trace, &p.addr, &SWAP_KINDS);
         if swaps.is_empty() {
             continue;
@@ -428,7 +428,7 @@ fn c02_settlement(ctx: &Ctx, cov: &mut Cover) {
         Some(x) => x,
         None => return,
     };
-    let p = match ctx.model.pairs.get(pi) {
+    let p = match ctx.model.std_pair(pi) {
         Some(p) => p,
         None => return,
     };
@@ -525,7 +525,7 @@ fn c02_settlement(ctx: &Ctx, cov: &mut Cover) {
         }
     }
     // c) ask reserve fell by exactly the reported return
-    if let (Some(r), Some(o)) = (reported, outflow) {
+    if let (Some(r), Some(o), true) = (reported, outflow, receiver != p.addr) {
         cov.eval("C02", "c");
         if r != o {
             cov.violate(
@@ -675,7 +675,7 @@ fn c06_exec(ctx: &Ctx, cov: &mut Cover) {
         Some(x) => x,
         None => return,
     };
-    let p = match ctx.model.pairs.get(pi) {
+    let p = match ctx.model.std_pair(pi) {
         Some(p) => p,
         None => return,
     };
@@ -726,7 +726,7 @@ fn c04_withdraw(ctx: &Ctx, cov: &mut Cover) {
         Op::Withdraw { pair, amount } => (*pair, amount.u128()),
         _ => return,
     };
-    let p = match ctx.model.pairs.get(pi) {
+    let p = match ctx.model.std_pair(pi) {
         Some(p) => p,
         None => return,
     };
@@ -830,7 +830,7 @@ fn c05_provide(ctx: &Ctx, cov: &mut Cover) {
         } => (*pair, assets, funds, receiver),
         _ => return,
     };
-    let p = match ctx.model.pairs.get(pi) {
+    let p = match ctx.model.std_pair(pi) {
         Some(p) => p,
         None => return,
     };
@@ -1244,7 +1244,7 @@ fn c09_declared(ctx: &Ctx, cov: &mut Cover) {
         Op::SwapHook { pair, offer, .. } => ("hook-swap", vec![offer], &[], *pair),
         _ => return,
     };
-    let kind = ctx.model.pairs.get(pi).map(|p| p.kind()).unwrap_or("?");
+    let kind = ctx.model.std_pair(pi).map(|p| p.kind()).unwrap_or("?");
     for a in named {
         if let AssetRef::Native(d) = &a.asset {
             let attached: u128 = funds
@@ -1290,7 +1290,7 @@ fn c20_withdrawable(ctx: &Ctx, cov: &mut Cover) {
     if ctx.injected || ctx.ev.fail_at.is_some() || !matches!(ctx.ev.sender, AddrRef::Actor(_)) {
         return;
     }
-    let p = match ctx.model.pairs.get(pi) {
+    let p = match ctx.model.std_pair(pi) {
         Some(p) => p,
         None => return,
     };
